@@ -48,6 +48,15 @@ def resumed(sess, suite, what, direct, step, state, rest, fmt, replay):
     sess.case("resume|" + req, nontrivial=direct.ok, sample={"suite": suite, "boundary": what, "format": fmt, "answer": r.raw[:60]})
     sess.count("boundary:" + what)
     sess.count("format:" + fmt)
+    if fmt == "bin" and step in ("keypkg", "refresh_share", "dkg2", "refresh_dkg2", "dkg3", "refresh_dkg3"):
+        # custom persistence: every field stored in its own encoding (the commitment vector with serialize_whole), the
+        # object rebuilt with deserialize_whole and the public constructor
+        plain = " ".join("%s=%s" % (k, a.split("=", 1)[1]) for k, (t_, a) in state.items())
+        reqf = "resume %s step=%s fmt=fields %s %s" % (suite, step, plain, rest)
+        rf = sess.call(reqf, NONE, "resume:%s:fields" % step, model=False)
+        sess.oracle(rf.raw == direct.raw, "%s: the step continued from the state stored field by field (serialize_whole / deserialize_whole / new) answers differently from the uninterrupted one (%s vs %s)" % (what, rf.raw[:70], direct.raw[:70]), replay + [reqf])
+        sess.case("resume|" + reqf, nontrivial=direct.ok)
+        sess.count("format:fields")
     if fmt == "json":
         # the same stored text read through a reader (a file) and as an already parsed document
         for f2 in ("json_reader", "json_value"):
@@ -213,6 +222,34 @@ def special_states(sess, suite, fmts):
                 resumed(sess, suite, "%s part1 -> part2, threshold %d" % (p, t), d, p + "2", {"sp": ("dkg1secret", "v=" + d1["sp"])}, "r1=", fmt, [])
 
 
+def large_state(sess, suite, n):
+    """a state larger than 64 KiB: the public key package of a group of n participants (stored, decoded, used for repair)"""
+    fld = Fld(suite)
+    r = sess.call("dealer %s n=%d t=2 ids=default tape=%s" % (suite, n, sess.tape(512)), NONE, "dealer-large", model=False)
+    if not sess.oracle(r.ok, "dealer for %d participants failed (%s)" % (n, r.raw[:60]), []):
+        return
+    pkp = r["pkp"]
+    for fmt in ("bin", "json"):
+        b = ser(sess, suite, "pubkeypackage", "v=" + pkp, fmt) if fmt == "json" else None
+        if fmt == "bin":
+            rb = sess.call("ser %s t=pubkeypackage v=%s" % (suite, pkp), NONE, "persist-large", model=False)
+            b = rb["b"] if rb.ok else None
+        if not sess.oracle(b is not None and len(b) // 2 > 65536, "a %d-participant public key package could not be stored or is unexpectedly small" % n, []):
+            continue
+        lost = fld.enc(n)
+        sig = "%s,%s" % (fld.enc(5), fld.enc(6))
+        d = sess.call("repair3 %s sigmas=%s id=%s pkp=%s" % (suite, sig, lost, pkp), NONE, "repair3-large", model=False)
+        req = "resume %s step=repair3 fmt=%s pkp=%s sigmas=%s id=%s" % (suite, fmt, b, sig, lost)
+        rr = sess.call(req, NONE, "resume-large", model=False)
+        sess.oracle(rr.raw == direct_ok(d), "a public key package of %d bytes (%d participants) stored as %s does not resume to the same repair result (%s)" % (len(b) // 2, n, fmt, rr.raw[:60]), ["dealer %s n=%d t=2 ids=default" % (suite, n), req[:200]])
+        sess.case("large|%s|%s|%d" % (suite, fmt, n), nontrivial=d.ok, sample={"suite": suite, "boundary": "large public key package", "bytes": len(b) // 2})
+        sess.count("large-state")
+
+
+def direct_ok(d):
+    return d.raw
+
+
 _G = {}
 
 
@@ -230,6 +267,8 @@ def generate(sess):
     thorough = sess.tier != "quick"
     for suite in TOY_SUITES + REAL_SUITES:
         special_states(sess, suite, ["bin", "json"])
+        if thorough or suite in ("ed448", "p256"):
+            large_state(sess, suite, 1200)
         sizes = [(2, 2), (3, 2), (4, 3), (5, 5)] if thorough else ([(3, 2), (4, 3)] if suite in TOY_SUITES else [(3, 2)])
         for (n, t) in sizes:
             protocol_runs(sess, suite, n, t, ["bin", "json"])
